@@ -352,6 +352,10 @@ def apply_bound(ex, st, k, args, site):
     for p in ps:
         if p.name in args and p.kind.tag != 'val':
             args[p.name] = _typed(args[p.name], p.kind, st)
+        elif p.name in args and isinstance(args[p.name], (PTuple, PSeq)):
+            # a literal tuple/list passed as a value: fix its identity now, so that the defining facts are part of the
+            # caller's state before the outcome states are derived from it
+            st = st.copy(); args[p.name] = ZV('val', to_val(args[p.name], st))
     outs = []
     st1 = st
     if k.traced is not None:
